@@ -77,7 +77,7 @@ def big_shader(n):
 
 def shaders(rng, tier):
     out = [("small_sink", sink.sink(rng)["wgsl"]), ("small_graph", W.random_program(rng).render()),
-           ("fixture", open("/repo/wgsl_to_wgpu/src/data/bindgroup/vertex_fragment.wgsl").read()),
+           ("fixture", open(REPO + "/wgsl_to_wgpu/src/data/bindgroup/vertex_fragment.wgsl").read()),
            ("big_300", big_shader(300)), ("big_150", big_shader(150))]
     if tier == "thorough":
         out += [("sink_%d" % i, sink.sink(rng)["wgsl"]) for i in range(10)] + [("big_600", big_shader(600))]
